@@ -26,7 +26,6 @@ const (
 	aNewRecord    = "base.(*LogAllocator).NewRecord"
 	aRunTransf    = "base/bsupport.RunTransforms"
 	aOnInputW     = "base/bsupport.(*LogProcessingWorker).onInput"
-	aFlushChunk   = "base/bsupport.(*LogProcessingWorker).flushChunk"
 	aSelectKeySet = "base.(*LogProcessCounterSet).SelectMetricKeySet"
 	aCountStream  = "base.(*LogProcessCounterSet).CountStream"
 	aCountChunk   = "base.(*LogProcessCounterSet).CountChunk"
@@ -385,22 +384,27 @@ func ruleC19R2(c *Ctx) {
 	}
 	c.check(okAll, "C19.R2", fn, "per record: one of pass/drop by the transform result; per output: one stream, one release, chunk counted iff handed on", rt[0].Pos(),
 		"DROP edge: drop=1 release=1; PASS edge: pass=1; each output iteration: stream=1 release=1 CountChunk=AcceptChunk≤1", strings.Join(why, "; "))
-	// the chunk is counted before it is handed on, and only when non-nil
-	cc := c.callsTo(fn, anchorPred(aCountChunk))
-	ac := sitesWhere(fn, func(s ssa.CallInstruction) bool { return fieldCallOf(s, "base/bsupport.OutputInterface.AcceptChunk") })
-	c.checkOrder("C19.R2", fn, "CountChunk", callInstrSet(cc), "AcceptChunk", callInstrSet(ac))
-	// same for the flush path
-	fc := c.P.Fn(aFlushChunk)
-	cc2 := c.callsTo(fc, anchorPred(aCountChunk))
-	ac2 := sitesWhere(fc, func(s ssa.CallInstruction) bool { return fieldCallOf(s, "base/bsupport.OutputInterface.AcceptChunk") })
-	c.checkOrder("C19.R2", fc, "CountChunk", callInstrSet(cc2), "AcceptChunk", callInstrSet(ac2))
-	// what is counted is what is handed on
-	for _, pair := range [][2][]ssa.CallInstruction{{cc, ac}, {cc2, ac2}} {
-		if len(pair[0]) == 1 && len(pair[1]) == 1 {
-			same := mentions(pair[1][0].Common().Args[0], func(v ssa.Value) bool { return v == strip(pair[0][0].Common().Args[2]) })
-			c.check(same, "C19.R2", pair[0][0].Parent(), "the chunk counted is the chunk handed on", pair[0][0].Pos(), "same value", "CountChunk and AcceptChunk see different chunks")
+	// the chunk is counted before it is handed on — wherever the worker hands a chunk on (the per-record path, the flush
+	// path, a shared helper of both): in every function of the worker that calls AcceptChunk, CountChunk precedes it on all
+	// paths and sees the same chunk
+	nAcc := 0
+	for _, f := range c.P.universe {
+		if relPkg(fnPkgPath(f)) != "base/bsupport" {
+			continue
+		}
+		ac := sitesWhere(f, func(s ssa.CallInstruction) bool { return fieldCallOf(s, "base/bsupport.OutputInterface.AcceptChunk") })
+		if len(ac) == 0 {
+			continue
+		}
+		nAcc += len(ac)
+		cc := c.callsTo(f, anchorPred(aCountChunk))
+		c.checkOrder("C19.R2", f, "CountChunk", callInstrSet(cc), "AcceptChunk", callInstrSet(ac))
+		if len(cc) == 1 && len(ac) == 1 {
+			same := mentions(ac[0].Common().Args[0], func(v ssa.Value) bool { return v == strip(cc[0].Common().Args[2]) })
+			c.check(same, "C19.R2", f, "the chunk counted is the chunk handed on", cc[0].Pos(), "same value", "CountChunk and AcceptChunk see different chunks")
 		}
 	}
+	c.floor("C19.R2", "AcceptChunk sites of the processing worker", nAcc, 1)
 }
 
 // ---- C19.R3 = C03.R1 + C03.R9
@@ -417,7 +421,7 @@ func ruleC19R4(c *Ctx) {
 	// sendChunk: OnForwarding once; OnForwarded exactly when queued (success return)
 	sc := c.P.Fn(aSendChunk)
 	var sel *ssa.Select
-	eachInstr(sc, func(in ssa.Instruction) {
+	c.eachInstrR(sc, func(in ssa.Instruction) {
 		if s, ok := in.(*ssa.Select); ok {
 			sel = s
 		}
@@ -484,6 +488,21 @@ func ruleC19R4(c *Ctx) {
 	for _, a := range []string{aResend, aCWRun} {
 		fn := c.P.Fn(a)
 		pops := c.callsTo(fn, anchorPred(mp+"OnLeftoverPopped"))
+		if len(pops) == 0 {
+			// in a private helper of this function (not one that belongs to the other stage)
+			for _, s := range c.sitesWhereR(fn, func(s ssa.CallInstruction) bool {
+				f := s.Common().StaticCallee()
+				return f != nil && isAnchor(f, mp+"OnLeftoverPopped")
+			}) {
+				if a == aCWRun && ownedBy(s.Parent(), aResend, aSessRun, aCWRunSess) {
+					continue
+				}
+				pops = append(pops, s)
+			}
+			if len(pops) == 1 {
+				fn = pops[0].Parent()
+			}
+		}
 		var recv ssa.Instruction
 		for _, op := range chanOps(fn) {
 			if op.Kind != "recv" && op.Kind != "range" {
@@ -585,7 +604,60 @@ func ruleC19R5(c *Ctx) {
 	sU := newSumm(c.P, anchorPred(aProcUpdate))
 	sU.AllowEmptyGuards, sU.LoopsRunOnce = false, false
 	c.mustBeforeReturn("C19.R5", os, entryOf(os), sU, "onStop flushes the process counters", "LogProcessCounterSet.UpdateMetrics", os.Pos(), nil)
-	c.checkOrder("C19.R5", os, "flushChunk (last CountChunk)", callInstrSet(c.callsTo(os, anchorPred(aFlushChunk))), "UpdateMetrics", callInstrSet(c.callsTo(os, anchorPred(aProcUpdate))))
+	// the last chunk is counted before the counters are written: after every CountChunk that onStop (with its private
+	// helpers) can reach, UpdateMetrics is passed before onStop returns
+	nCC := 0
+	reachesCount := func(s ssa.CallInstruction) bool {
+		f := s.Common().StaticCallee()
+		if f == nil {
+			return false
+		}
+		if isAnchor(f, aCountChunk) {
+			return true
+		}
+		if !c.P.inUni[f] || f.Blocks == nil {
+			return false
+		}
+		for g := range c.P.reachableFrom([]*ssa.Function{f}, func(x *ssa.Function) bool { return !c.P.inUni[x] }) {
+			if isAnchor(g, aCountChunk) {
+				return true
+			}
+		}
+		return false
+	}
+	sUpd := newSumm(c.P, anchorPred(aProcUpdate))
+	sUpd.AllowEmptyGuards, sUpd.LoopsRunOnce = false, false
+	// in f, after every call that can count a chunk, UpdateMetrics is passed before f returns — directly, through a call
+	// that must reach it, or inside the counting callee itself (judged the same way)
+	var afterCount func(f *ssa.Function, depth int) (bool, ssa.Instruction, []*ssa.BasicBlock)
+	afterCount = func(f *ssa.Function, depth int) (bool, ssa.Instruction, []*ssa.BasicBlock) {
+		for _, s := range sitesWhere(f, reachesCount) {
+			if f == os {
+				nCC++
+			}
+			if g := s.Common().StaticCallee(); g != nil && !isAnchor(g, aCountChunk) && sUpd.siteMust(s, nil, 0) && depth < 3 {
+				if ok, _, _ := afterCount(g, depth+1); ok {
+					continue // counted and written inside the callee, in that order
+				}
+			}
+			q := &PathQ{P: c.P, Barrier: func(in ssa.Instruction) bool {
+				ci, isCall := in.(ssa.CallInstruction)
+				return isCall && in != s.(ssa.Instruction) && sUpd.siteMust(ci, nil, 0)
+			}}
+			if hit, tr := q.Reach(after(s), isReturn); hit != nil {
+				return false, s.(ssa.Instruction), tr
+			}
+		}
+		return true, nil, nil
+	}
+	okAC, at, tr := afterCount(os, 0)
+	pos := os.Pos()
+	if at != nil {
+		pos = at.Pos()
+	}
+	c.check(okAC, "C19.R5", os, "last CountChunk before UpdateMetrics", pos, "after a chunk is counted on the stop path UpdateMetrics is passed before the function that counted returns",
+		"the stop path can count a chunk without writing the counters afterwards: "+c.P.trailString(tr))
+	c.floor("C19.R5", "CountChunk sites reachable in onStop", nCC, 1)
 	for _, a := range []string{aSinkFlush, aSinkClose} {
 		fn := c.P.Fn(a)
 		sI := newSumm(c.P, anchorPred(aInputUpdate))
@@ -883,4 +955,69 @@ func ruleC19R9(c *Ctx) {
 	c.check(good, "C19.R9", fn, "every message is counted exactly once across the input stage", innerCall.Pos(),
 		fmt.Sprintf("%d combinations of parser and wrapper paths: exactly one of pass / drop each", n),
 		"a message is counted more than once (or not at all) on its way through the parser and the extraction transforms — e.g. counted as passed by the parser and again as dropped by the wrapper: passed + dropped no longer equals the number of messages: "+strings.Join(why, "; "))
+}
+
+// ---- C09.R6 (added after seed c09f): the record's private copy is the whole line. Cutting a message is the parser's
+// business: it cuts the *message* at InputLogMaxMessageBytes, counts the overflow and warns (R2). A clip of the raw line on
+// its way to the parser — in the allocator, "the rest would be cut anyway" — shortens the message by however much the
+// header exceeds its allowance, silently: nothing is counted, and a message within the limit loses its tail. So in
+// LogAllocator.NewRecord (and its private helpers) the input parameter is never re-sliced.
+func init() {
+	register("C09", "C09.R6", ruleC09R6)
+}
+
+func ruleC09R6(c *Ctx) {
+	fn := c.P.Fn("base.(*LogAllocator).NewRecord")
+	input := ssa.Value(fn.Params[1])
+	n := 0
+	var bad ssa.Instruction
+	fromInput := func(v ssa.Value) bool {
+		seen := map[ssa.Value]bool{}
+		var w func(v ssa.Value, d int) bool
+		w = func(v ssa.Value, d int) bool {
+			v = strip(v)
+			if v == input {
+				return true
+			}
+			if seen[v] || d > 6 {
+				return false
+			}
+			seen[v] = true
+			switch x := v.(type) {
+			case *ssa.Phi:
+				for _, e := range x.Edges {
+					if w(e, d+1) {
+						return true
+					}
+				}
+			case *ssa.Slice:
+				return w(x.X, d+1)
+			}
+			return false
+		}
+		return w(v, 0)
+	}
+	c.eachInstrR(fn, func(in ssa.Instruction) {
+		switch x := in.(type) {
+		case *ssa.Slice:
+			if fromInput(x.X) && (x.High != nil || x.Low != nil) && bad == nil {
+				bad = in
+			}
+		case *ssa.Call:
+			if isBuiltin(x, "copy") && len(x.Call.Args) == 2 && fromInput(x.Call.Args[1]) {
+				n++
+			}
+			if f := x.Common().StaticCallee(); f != nil && anchorOrExt(f) == "util.DeepCopyStringFromBytes" && fromInput(x.Common().Args[0]) {
+				n++
+			}
+		}
+	})
+	pos := fn.Pos()
+	if bad != nil {
+		pos = bad.Pos()
+	}
+	c.check(bad == nil, "C09.R6", fn, "the record's private copy is the whole input line", pos,
+		"the input parameter is copied as it is, never re-sliced",
+		"the raw line is clipped before the parser sees it: the parser then finds less message than was sent — a message within the limit loses its tail, an over-long one is cut below the limit, and neither is counted as overflow")
+	c.floor("C09.R6", "copies of the input line in NewRecord", n, 1)
 }
